@@ -55,6 +55,8 @@ class _World:
         it.class_hooks = {"PythonCodeGen": self.codegen}
         it.builtin_hooks = {"compile": self.compile, "exec": self.exec, "globals": self.globals_, "eval": self.eval_}
         it.opaque_equal = self.opaque_equal
+        # a warning is an exception in a process that runs with warnings as errors (-W error, pytest filterwarnings = error)
+        it.ext_hooks = {"warnings.warn": self.warn}
 
     def opaque_equal(self, a, b, site):
         """`==` between two parsed trees.  pydantic compares models field by field with Python's ==, which does not tell 1 from
@@ -69,6 +71,11 @@ class _World:
             return ans
         if a.tag == b.tag == "generated-text" and a is not b:
             raise A.Unsupported(f"comparison of two generated texts at {site}")
+        return None
+
+    def warn(self, it, args, kwargs, site):
+        if self.fails("warnings.warn (in a process that turns warnings into errors) raises", site):
+            raise A.RaiseSig("Warning", site, "warnings.warn")
         return None
 
     def fails(self, what, site):
@@ -242,6 +249,59 @@ def explore(ctx: Ctx, history, max_runs=200, then_call=None, settle=False):
         if len(outs) + len(pending) > max_runs:
             raise Undecided("too many undetermined decisions in recompile")
     return outs
+
+
+def _explore_after_method(ctx: Ctx, fnode, T0, T1):
+    """('served', function) after evaluator(T0); <method>(...); recompile(T1); evaluator() - or ('skipped', reason) when the method
+    cannot be followed or raises on the arguments tried (a text parameter gets T1, parameters with defaults keep them, others get
+    opaque values)."""
+    m = ctx.mod(EV)
+    c = m.classes()["ExperimentEvaluator"]
+    pending = [()]
+    while pending:
+        ch = pending.pop()
+        it = A.Interp(ctx.src, ch)
+        w = _World(ctx, it, _gen_signature(ctx))
+        cls = it.class_val(m, c)
+        try:
+            selfo = it.instantiate(cls, [T0], {}, "")
+            if not isinstance(selfo, A.Obj):
+                return ("skipped", "construction")
+            a = fnode.args
+            params = [x for x in a.posonlyargs + a.args][1:]
+            n_def = len(a.defaults)
+            args = []
+            for i, prm in enumerate(params):
+                has_default = i >= len(params) - n_def
+                ann = A.norm(prm.annotation) if prm.annotation is not None else ""
+                texty = prm.arg in ("source", "source_code", "text", "code", "candidate", "experiment", "src", "new_source") or ann in ("str",)
+                if texty:
+                    args.append(T1)
+                elif has_default:
+                    break
+                else:
+                    args.append(A.Sym("str", f"ARG:{prm.arg}"))
+            try:
+                it.call(it.class_attr(cls, fnode.name, selfo, ""), args, {})
+            except A.RaiseSig:
+                pass                 # the method refused its arguments: the evaluator must still be sound afterwards
+            it.call(it.class_attr(cls, "recompile", selfo, ""), [T1], {})
+            w.log.clear()
+            try:
+                it.call(it.class_attr(cls, "__call__", selfo, ""), [], {})
+            except A.RaiseSig as e:
+                return ("served", ("raise", e.exc_name))
+            calls = [e for e in w.log if e[0] == "call"]
+            return ("served", calls[-1][1] if calls else None)
+        except A.NeedChoice:
+            pending.append(ch + (True,))
+            pending.append(ch + (False,))
+            if len(pending) > 16:
+                return ("skipped", "too many undetermined decisions")
+            continue
+        except (A.Unsupported, A.RaiseSig) as e:
+            return ("skipped", str(e)[:120])
+    return ("skipped", "no run")
 
 
 def _explore_copy(ctx: Ctx, history, proto):
@@ -583,6 +643,37 @@ def lifecycle(ctx: Ctx):
                 break
         res["facts"]["two_evaluators"] = True
     except Undecided:
+        pass
+    # every other public method of the class is an operation too: whatever it does, a recompile(X) that follows must make the
+    # evaluator serve X (a dry run that records the candidate's fingerprint makes the real recompile a no-op)
+    try:
+        m_ = ctx.mod(EV)
+        c_ = m_.classes()["ExperimentEvaluator"]
+        others_ = []
+        for f_ in c_.body:
+            if not isinstance(f_, ast.FunctionDef) or f_.name.startswith("__") or f_.name in ("recompile", "run_experiment"):
+                continue
+            decos_ = {(A.dotted(d_.func) if isinstance(d_, ast.Call) else A.dotted(d_)) or "" for d_ in f_.decorator_list}
+            if decos_ & {"property", "staticmethod", "classmethod", "contextmanager", "contextlib.contextmanager", "cached_property",
+                         "functools.cached_property"} or any(x.endswith(".setter") for x in decos_):
+                continue
+            others_.append(f_)
+        res["facts"]["other_methods"] = []
+        for f_ in others_:
+            out_ = _explore_after_method(ctx, f_, T0, T1)
+            res["facts"]["other_methods"].append((f_.name, out_[0]))
+            if out_[0] == "served" and not (isinstance(out_[1], A.Opaque) and out_[1].tag == "compiled-function" and isinstance(
+                    out_[1].payload["text"].payload[0], A.Opaque) and out_[1].payload["text"].payload[0].payload is T1):
+                def _d4(x):
+                    if isinstance(x, A.Opaque) and x.tag == "compiled-function":
+                        t_ = x.payload["text"].payload[0]
+                        return f"the function compiled from {A._describe(t_.payload) if isinstance(t_, A.Opaque) else t_!r}"
+                    return "no compiled function" if x is None else f"{x!r}"
+                F["switched"].append((f"{f_.name}[then recompile]", f"on an evaluator built from TEXT0, {f_.name}(...TEXT1...) followed by "
+                                      f"recompile(TEXT1) leaves a call running {_d4(out_[1])}: the method changes what the skip test of "
+                                      "recompile compares (or what a call reads) without loading the text, so the recompile that follows "
+                                      "is skipped or overridden"))
+    except (Undecided, KeyError):
         pass
     # a copy / pickle protocol defined by the class: the copy must be an evaluator of the text the original serves NOW
     try:
